@@ -51,4 +51,24 @@ Section Spec.
   (* description shown by the printer: that of exactly this value, none for other values *)
   Definition c10_desc_ok (S : list A) (descs : list D) (v : A) (desc : option D) : bool :=
     opt_eqb eqD desc (match index_of S v with Some i => nth_error descs i | None => None end).
+
+  (* the same through a field object: a field without a domain is always valid and has neither
+     index nor description *)
+  Definition c10_field_valid_ok (rlm : option (rkind * list A)) (v : A) (valid : bool) : bool :=
+    match rlm with
+    | None => valid
+    | Some (k, R) => c10_valid_ok k R v valid
+    end.
+
+  Definition c10_field_idx_ok (rlm : option (rkind * list A)) (v : A) (idx : option nat) : bool :=
+    match rlm with
+    | None => match idx with None => true | Some _ => false end
+    | Some (_, R) => c10_idx_ok R v idx
+    end.
+
+  Definition c10_field_desc_ok (rlm : option (rkind * list A)) (descs : list D) (v : A) (desc : option D) : bool :=
+    match rlm with
+    | None => match desc with None => true | Some _ => false end
+    | Some (_, R) => c10_desc_ok R descs v desc
+    end.
 End Spec.
